@@ -309,3 +309,43 @@ def walk_through_locals(f, node, _seen=None):
             seen.add(x['d'])
             for y in walk_through_locals(f, idx[x['d']]['ch'][0], seen):
                 yield y
+
+
+def counting_loop(loop):
+    """Header of a counting `for` loop, independent of spelling.  Returns dict(var=decl id, start=node|None, op='<'|'<='|'>'|'>='|'!=', bound=node, step=+1|-1|None) or None.
+    Accepts `T i = a` / `i = a` initialisers, the condition with its operands in either order (and under `!`), and i++ / ++i / i += 1 / i = i + 1 (resp. decrements)."""
+    if loop['k'] != 'ForStmt':
+        return None
+    init, cond, inc = loop.role('init'), loop.role('cond'), loop.role('inc')
+    cands = {}
+    if init is not None:
+        for x in init.walk():
+            if x['k'] == 'VarDecl' and x.get('d') is not None:
+                cands[x['d']] = x['ch'][0] if x['ch'] else None
+            if x['k'] == 'BinaryOperator' and x.get('op') == '=' and strip_casts(x['ch'][0])['k'] == 'DeclRefExpr':
+                cands[strip_casts(x['ch'][0]).get('d')] = x['ch'][1]
+    step, sv = None, None
+    if inc is not None:
+        for i in inc.walk() if inc['k'] == 'BinaryOperator' and inc.get('op') == ',' else [inc]:
+            i = strip_casts(i)
+            if i['k'] == 'UnaryOperator' and i.get('op') in ('post++', 'pre++', 'post--', 'pre--'):
+                sv, step = strip_casts(i['ch'][0]).get('d'), (1 if '++' in i['op'] else -1)
+            elif i['k'] == 'CompoundAssignOperator' and i.get('op') in ('+=', '-=') and strip_casts(i['ch'][1]).get('v') == 1:
+                sv, step = strip_casts(i['ch'][0]).get('d'), (1 if i['op'] == '+=' else -1)
+            elif i['k'] == 'BinaryOperator' and i.get('op') == '=' and strip_casts(i['ch'][1])['k'] == 'BinaryOperator' and strip_casts(i['ch'][1]).get('op') in ('+', '-'):
+                r = strip_casts(i['ch'][1])
+                a, b = strip_casts(r['ch'][0]), strip_casts(r['ch'][1])
+                if a.get('d') == strip_casts(i['ch'][0]).get('d') and b.get('v') == 1:
+                    sv, step = a.get('d'), (1 if r['op'] == '+' else -1)
+                elif r['op'] == '+' and b.get('d') == strip_casts(i['ch'][0]).get('d') and a.get('v') == 1:
+                    sv, step = b.get('d'), 1
+            if sv is not None and (not cands or sv in cands):
+                break
+    if cond is None:
+        return None
+    for (l, op, r) in rel_forms(cond, True):
+        if l['k'] == 'DeclRefExpr' and l.get('d') is not None and (l['d'] in cands or l['d'] == sv) and op in ('<', '<=', '>', '>=', '!='):
+            if any(x['k'] == 'DeclRefExpr' and x.get('d') == l['d'] for x in r.walk()):
+                continue
+            return {'var': l['d'], 'start': cands.get(l['d']), 'op': op, 'bound': r, 'step': step if sv == l['d'] else None}
+    return None
